@@ -25,8 +25,13 @@ pub fn parse_query(query: &str) -> Result<Query, QueryError> {
         )));
     }
 
-    let query = match ast.pop().unwrap() {
-        Statement::Query(query) => query,
+    let query = match ast.pop() {
+        Some(Statement::Query(query)) => query,
+        None => {
+            return Err(QueryError::ParseError(
+                "Expected a query statement, but there is none.".to_string(),
+            ))
+        }
         _ => {
             return Err(QueryError::ParseError(
                 "Only SELECT queries are supported.".to_string(),
@@ -193,7 +198,12 @@ fn get_limit(limit: Option<ASTNode>) -> Result<u64, QueryError> {
         Some(ASTNode::Value(ValueWithSpan {
             value: Value::Number(int, _),
             ..
-        })) => Ok(int.parse::<u64>().unwrap()),
+        })) => int.parse::<u64>().map_err(|_| {
+            QueryError::ParseError(format!(
+                "Invalid expression in limit clause: Expected non-negative integer, got {}",
+                int
+            ))
+        }),
         None => Ok(u64::MAX),
         _ => Err(QueryError::NotImplemented(format!(
             "Invalid expression in limit clause: {:?}",
@@ -209,7 +219,12 @@ fn get_offset(offset: Option<Offset>) -> Result<u64, QueryError> {
             ASTNode::Value(ValueWithSpan {
                 value: Value::Number(rows, _),
                 ..
-            }) => Ok(rows.parse::<u64>().unwrap()),
+            }) => rows.parse::<u64>().map_err(|_| {
+                QueryError::ParseError(format!(
+                    "Invalid expression in offset clause: Expected non-negative integer, got {}",
+                    rows
+                ))
+            }),
             expr => Err(QueryError::ParseError(format!(
                 "Invalid expression in offset clause: Expected constant integer, got {:?}",
                 expr,
